@@ -170,3 +170,10 @@ def search(ctx, hints, broken):
 
 def replay(ctx, payload):
   return oracle(payload["input"])
+
+# --- second build round: additions to the claimed level
+LEVEL_TEXT += ("; the sum of GPs also through its gradient and joint entry points (regenerated); the polynomial matrix of the mean is the executable "
+               "model Model/Poly.v (written over a generic carrier, run against python_utils.build_polynomial_matrix at Q, proved at R: entries are the "
+               "monomials, shortcut branches included)")
+LEVEL_NOTE = LEVEL_NOTE.replace("permutation invariance and appended lie data are decided by the", "appended lie data is decided by the")
+TECHNIQUE += " + in-Coq differential correspondence for the polynomial builders"
